@@ -363,11 +363,11 @@ impl ParserListener for Screen {
     /// Fills screen with uppercase E's for screen focus and alignment.
     fn alignment_display(&mut self) {
         self.dirty.extend(0..self.lines);
+        let default_char = self.default_char();
         for y in 0..self.lines {
             let line = self.buffer.entry(y).or_insert_with(HashMap::new);
             for x in 0..self.columns {
-                // TODO check this default, should be default_char on screen
-                let char_opts = line.entry(x).or_insert_with(CharOpts::default);
+                let char_opts = line.entry(x).or_insert_with(|| default_char.clone());
                 char_opts.data = "E".to_string();
             }
         }
